@@ -401,7 +401,12 @@ impl VariablesState {
                     json_read::jtoken_to_runtime_object(loaded_token, None)?
                         .into_any()
                         .downcast::<Value>()
-                        .unwrap(),
+                        .map_err(|_| {
+                            StoryError::BadJson(format!(
+                                "Saved variable '{}' is not a value: {}",
+                                k, loaded_token
+                            ))
+                        })?,
                 );
             } else {
                 self.global_variables.insert(k.clone(), v.clone());
